@@ -214,7 +214,8 @@ def two_arg(fn, ua, ub, r1, r2, point=False, only=None):
     va, vb = (only[0], only[1]) if only else (vals(r1, n1, c), vals(r2, n2, c))
     body = TWO % {"id": 0, "r1": r1, "r2": r2, "ca": c, "cb": c, "xa": x, "xb": x, "exp": exp, "n1": n1, "n2": n2, "o1": o1,
                   "o2": o2, "picks": "true" if fn in ("min", "max") else "false", "call": call, "expect": STD2[fn],
-                  "pre": "true", "A": arr("A", va), "B": arr("B", vb)}
+                  # std::min / std::max require a strict weak ordering of the values: NaN operands are outside their contract
+                  "pre": "a == a && b == b" if fn in ("min", "max") else "true", "A": arr("A", va), "B": arr("B", vb)}
     probe = "(void)%s%s(%s(static_cast<%s>(1)), %s(static_cast<%s>(1)));" % (ns_, fn, mk(ua, point), r1, mk(ub, point), r2)
     if fn == "arctan2":
         unit = (model.LIB_BY_STEM["radians"].mag, model.LIB_BY_STEM["radians"].dim)
